@@ -123,7 +123,10 @@ def run_inject(ctx, case):
     if not strict:
         ctx.count("nonstrict:" + ("session-established" if done else "session-failed"))
         return True
-    if done or err is None:
+    if err is None and not done:
+        ctx.inconc("inject:tested-side-neither-failed-nor-established-in-time")
+        return True
+    if done:
         ctx.violation(
             "strict-kex-terminates-on-unexpected-message",
             "%s:%s:%s" % (role, what, "before-kexinit" if pos == 0 else "after-kexinit"),
@@ -186,7 +189,7 @@ def run_terrapin(ctx, case):
     if not strict:
         raise core.HarnessError("strict mode not agreed in a terrapin case")
     if inject:
-        if ce is None or done:
+        if done:
             ctx.violation("strict-kex-terminates-on-unexpected-message", "client:terrapin-ignore-before-newkeys", case, "start_client -> %r initial_kex_done=%s" % (ce, done))
             return False
         return True
